@@ -116,6 +116,12 @@ func boxOf(v reflect.Value) interface{} {
 		return &Box[[]float64]{x}
 	case []bool:
 		return &Box[[]bool]{x}
+	case []uint8:
+		return &Box[[]uint8]{x}
+	case [2]int32:
+		return &Box[[2]int32]{x}
+	case [2]string:
+		return &Box[[2]string]{x}
 	case [2]int:
 		return &Box[[2]int]{x}
 	case [3]string:
